@@ -49,6 +49,9 @@ type Spec struct {
 	Produces       []string
 	GlobalSecurity [][]string
 	BasePath       string
+	// Extra: operations (path -> method -> operation object) that are generated and compiled but never called:
+	// nested array parameters in every location, outside the fragment of the binding model
+	Extra map[string]map[string]interface{}
 }
 
 func i64(v int64) *int64 { return &v }
@@ -185,6 +188,13 @@ func (sp *Spec) JSON() map[string]interface{} {
 			paths[op.Path] = pi
 		}
 		pi[op.Method] = o
+	}
+	for path, ms := range sp.Extra {
+		pi := map[string]interface{}{}
+		for m, o := range ms {
+			pi[m] = o
+		}
+		paths[path] = pi
 	}
 	doc := map[string]interface{}{
 		"swagger": "2.0", "info": map[string]interface{}{"title": "verifapi", "version": "1"},
@@ -333,6 +343,104 @@ func (g *gen) param(in, name string) PSpec {
 	return p
 }
 
+// nestItems: an items object of the given remaining depth; leaves of every simple type, validations present or absent at each level
+func (g *gen) nestItems(depth int, header bool) map[string]interface{} {
+	if depth > 0 {
+		m := map[string]interface{}{"type": "array", "items": g.nestItems(depth-1, header)}
+		if cf := g.r.Pick([]string{"", "csv", "ssv", "tsv", "pipes"}); cf != "" {
+			m["collectionFormat"] = cf
+		}
+		k := g.r.Intn(6)
+		switch k {
+		case 0:
+			m["minItems"] = 1
+		case 1:
+			m["maxItems"] = 4
+		case 2:
+			m["uniqueItems"] = true
+		}
+		g.hit(fmt.Sprintf("nested:array-level:validated=%v", k < 3))
+		return m
+	}
+	m := map[string]interface{}{}
+	validated := g.r.Chance(1, 3)
+	switch g.r.Intn(6) {
+	case 0:
+		m["type"] = "integer"
+		if f := g.r.Pick([]string{"", "int32", "int64", "uint32", "uint64"}); f != "" {
+			m["format"] = f
+		}
+		if validated {
+			if g.r.Chance(1, 2) {
+				m["minimum"] = 1
+			} else {
+				m["enum"] = []int{1, 2, 3}
+			}
+		}
+	case 1:
+		m["type"] = "number"
+		if f := g.r.Pick([]string{"", "float", "double"}); f != "" {
+			m["format"] = f
+		}
+		if validated {
+			m["maximum"] = 10
+		}
+	case 2:
+		m["type"] = "boolean"
+	case 3:
+		m["type"] = "string"
+		m["format"] = g.r.Pick([]string{"date", "date-time", "uuid", "byte"})
+	default:
+		m["type"] = "string"
+		if validated {
+			switch g.r.Intn(3) {
+			case 0:
+				m["minLength"] = 1
+			case 1:
+				m["enum"] = []string{"a", "b"}
+			default:
+				m["pattern"] = "^[a-z]+$"
+			}
+		}
+	}
+	_, hasFormat := m["format"]
+	g.hit(fmt.Sprintf("nested:leaf:%v:%v:validated=%v", m["type"], m["format"], len(m) > 2 || (len(m) == 2 && !hasFormat)))
+	return m
+}
+
+func (g *gen) nestParam(in, name string) map[string]interface{} {
+	depth := 2 + g.r.Intn(2)
+	if g.r.Chance(1, 4) {
+		depth = 1
+	}
+	m := g.nestItems(depth, in == "header")
+	m["name"], m["in"] = name, in
+	if in == "path" || g.r.Chance(1, 3) {
+		m["required"] = true
+	}
+	g.hit(fmt.Sprintf("nested:param:%s:depth=%d", in, depth))
+	return m
+}
+
+// extraOps: compile-only operations with nested array parameters
+func (g *gen) extraOps() map[string]map[string]interface{} {
+	ok := map[string]interface{}{"200": map[string]interface{}{"description": "r"}}
+	var qs []interface{}
+	qs = append(qs, g.nestParam("path", "grid"))
+	for j := 0; j < 4; j++ {
+		qs = append(qs, g.nestParam("query", fmt.Sprintf("nq%d", j)))
+	}
+	qs = append(qs, g.nestParam("header", "X-Nest"))
+	var fs []interface{}
+	for j := 0; j < 3; j++ {
+		fs = append(fs, g.nestParam("formData", fmt.Sprintf("nf%d", j)))
+	}
+	return map[string]map[string]interface{}{
+		"/opnest/{grid}": {"get": map[string]interface{}{"operationId": "opnestq", "parameters": qs, "responses": ok, "security": []interface{}{}}},
+		"/opnestform":    {"post": map[string]interface{}{"operationId": "opnestf", "consumes": []string{"application/x-www-form-urlencoded"}, "parameters": fs, "responses": ok, "security": []interface{}{}}},
+	}
+}
+
 var secShapes = [][][]string{
 	nil,                                // inherit
 	{},                                 // explicit none
@@ -434,5 +542,6 @@ func (g *gen) spec(nops int, variant int) *Spec {
 			{Name: "m", GoName: "M", In: "query", Type: "integer", Format: "uint32", Min: i64(1), Max: i64(10), XMin: true}},
 		Responses: []RSpec{{Code: 200}}, HasSecurity: true, Security: [][]string{}})
 	g.hit("param:required+allowEmptyValue:formData")
+	sp.Extra = g.extraOps()
 	return sp
 }
